@@ -62,6 +62,10 @@ CONTEXTS = {
     "cond": "log('r', g() ? 'T' : 'F');",
     "member-callee": "log('r', ({m: function (x) { return 'm' + x; }}).m(g()));",
     "nested-call": "log('r', id2(id2('a', g()), id2(g(), 'd')));",
+    # the caller itself holds construct slots (iterator, discriminant) under the operands being computed
+    "forin-array": "for (var kk in {a: 1, b: 2}) { log('r', [kk, g()]); }",
+    "forof-sum": "for (var vv of [1, 2]) { log('r', vv + g()); }",
+    "switch-arg": "switch (1) { case 1: log('r', id2('a', g())); }",
 }
 CTX_PRELUDE = "function id2(a, b) { return '' + a + ',' + b; }\n"
 
@@ -115,3 +119,49 @@ def enumerate_skeletons(depth2=True, contexts=("stmt",)):
             continue
         for c in contexts:
             yield (str(outer), inner, ex, c), program(outer, inner, ex, c)
+
+
+def override_bodies():
+    """(kind, a, b, c, statement): a completion pending in try/catch (return with and without a value, throw, break, normal) that a
+    jump out of the finally block overrides; the second family has the abandoned jump leave constructs that hold operand slots
+    (for-in / for-of iterators, switch discriminants, a caught exception, inner finally blocks).  The statements expect an
+    enclosing loop (continue / break target), a variable I and a function keep(v)."""
+    out = []
+    pendings = {"return-value": "return [I, I];", "return-call": "return keep(I) + keep(1);", "throw": "throw I;", "throw-expr": "keep(1) + nope.x;", "normal": "keep(I);",
+                "catch-rethrows": None, "catch-returns": None, "break-inner": None, "nested-finally": None, "return-void": "return;", "catch-returns-void": None, "nested-finally-void": None}
+    exits = {"continue": "continue;", "labelled-continue": "continue;", "cond-continue": "if (I >= 0) continue;"}
+    for pn, psrc in pendings.items():
+        for en, esrc in exits.items():
+            if pn == "catch-rethrows":
+                body = "try { throw I; } catch (e) { throw [e, e]; } finally { %s }" % esrc
+            elif pn == "catch-returns":
+                body = "try { throw I; } catch (e) { return [e, e]; } finally { %s }" % esrc
+            elif pn == "catch-returns-void":
+                body = "try { throw I; } catch (e) { return; } finally { %s }" % esrc
+            elif pn == "break-inner":
+                body = "do { try { break; } finally { %s } } while (0);" % ("continue;" if en != "cond-continue" else "if (I < 0) continue;")
+            elif pn == "nested-finally":
+                body = "try { try { return [I]; } finally { keep(2); } } finally { %s }" % esrc
+            elif pn == "nested-finally-void":
+                body = "try { try { return; } finally { keep(2); } } finally { %s }" % esrc
+            else:
+                body = "try { %s } finally { %s }" % (psrc, esrc)
+            out.append(("finally-override", pn, en, "", body))
+    crossed = {"for-in": "for (var k in {a: 1, b: 2}) { %s }", "for-of": "for (var v of [1, 2]) { %s }", "switch": "switch (I % 2) { case 0: %s default: %s }",
+               "for-in>for-of": "for (var k in {a: 1}) { for (var v of [1]) { %s } }", "switch>for-in": "switch (1) { case 1: for (var k in {a: 1}) { %s } }",
+               "for-of>try-finally": "for (var v of [1]) { try { %s } finally { keep(v); } }", "for-in>catch": "for (var k in {a: 1}) { try { throw k; } catch (e) { %s } }",
+               "while>for-in": "var w = 0; while (w++ < 2) { for (var k in {a: 1}) { %s } }", "labelled-for-of": "L1: for (var v of [1]) { for (;;) { %s } }"}
+    jumps = {"return-value": "return [I];", "return-void": "return;", "return-call": "return keep(I) + keep(1);", "throw": "throw I;"}
+    outs = {"continue": "continue;", "cond-continue": "if (I >= 0) continue;", "break-do": None, "labelled-break": None}
+    for cn, cs in crossed.items():
+        for jn, js in jumps.items():
+            for on, os_ in outs.items():
+                inner = cs.replace("%s", js)
+                if on == "break-do":
+                    body = "do { try { %s } finally { break; } } while (0);" % inner
+                elif on == "labelled-break":
+                    body = "OUT: { try { %s } finally { break OUT; } }" % inner
+                else:
+                    body = "try { %s } finally { %s }" % (inner, os_)
+                out.append(("finally-override-crossing", cn, jn, on, body))
+    return out
